@@ -89,6 +89,77 @@ def long_connection_probe(ck, tier, keys):
                              'connection' % (rounds, len(ahead), len(asked)), {'long_connection': True, 'rounds': rounds})
 
 
+def found_block_echo_probe(ck, tier, keys):
+    """two connected nodes; the first one's miner finds a block.  The neighbour adopts it and, as for every new head, relays it
+    to its own peers -- i.e. back.  Whatever the interleaving of the miner thread with the network thread (here: the echo is
+    handled the moment the broadcast has gone out), the finder relays its block once"""
+    import check_C12
+    from skepticoin.networking import messages as M
+    from skepticoin.networking import remote_peer as RP
+    rng = ck.rng
+    with chaingen.Env(period=50) as env:
+        tg = chaingen.TreeGen(env, keys, rng)
+        n = tg.genesis
+        for _ in range(3):
+            n = tg.extend(n, txs=[], fees=0, dt=100)
+        main = list(tg.nodes)
+        with simnet.Net(seed=rng.getrandbits(30), t0=n.view.time + 50) as net:
+            a = net.add_node('a', chaingen.impl_state_from(main))
+            b = net.add_node('b', chaingen.impl_state_from(main))
+            for nd in (a, b):
+                nd.activate()
+                nd.store.write_blocks_to_disk([m.block for m in main[1:]])       # the stores hold what the nodes start from
+            net.allowed = {frozenset((a.host, b.host))}
+            net.link(a, b)
+            for _g in range(3):
+                for nd in (a, b):
+                    nd.activate()
+                    nd.lp.network_manager.step(net.clock())
+                net.run_until_quiet(max_events=2000, step_every=0, quiet_needed=0)
+            sent = []
+            orig_send = RP.ConnectedRemotePeer.send_message
+
+            def logged(self, message, prev_header=None, _o=orig_send):
+                if type(message) is M.DataMessage and message.data_type == M.DATA_BLOCK and prev_header is None:
+                    sent.append((self.local_peer, spec.sha256d(message.data.header.serialize()), id(self)))
+                return _o(self, message, prev_header)
+            RP.ConnectedRemotePeer.send_message = logged
+            orig_bc = a.lp.network_manager.broadcast_block
+
+            def bc_then_network(block, _o=orig_bc):
+                r_ = _o(block)
+                net.run_until_quiet(max_events=5000, step_every=0, quiet_needed=0)     # the network thread runs NOW
+                a.activate()
+                return r_
+            a.lp.network_manager.broadcast_block = bc_then_network
+
+            class Adapter:
+                node = a
+
+                def lp(self):
+                    return a.lp
+
+                def pump(self):
+                    pass
+            try:
+                found = check_C12.mine_one(Adapter(), net, keys, tg, n)
+            finally:
+                RP.ConnectedRemotePeer.send_message = orig_send
+                a.lp.network_manager.broadcast_block = orig_bc
+            if found is None:
+                return
+            net.run_until_quiet(max_events=5000, step_every=0, quiet_needed=0)
+            per_conn = {}
+            for (lp_, bid, conn_) in sent:
+                if lp_ is a.lp and bid == found.id:
+                    per_conn[conn_] = per_conn.get(conn_, 0) + 1
+            times = max(per_conn.values()) if per_conn else 0       # relays over one connection
+            ck.case(('found-block-echo',), kind='relay/found-block-echoed-by-neighbour', sample={'relays_by_finder': times})
+            if times != 1:
+                ck.violation('relay-count', 'a node whose miner found a block relayed it %d times (its neighbour echoed the new head '
+                             'back while the found-block handler was still running)' % times, {'scripted': 'found block echo'})
+
+
 def run(tier, seed):
     ck = common.Check('C10', tier, seed)
     ck.rule = ('2-3 real nodes (LocalPeer, managers, real stores) in simnet; histories: common prefix 1-3, fork lengths chosen '
@@ -163,6 +234,21 @@ def run(tier, seed):
                 ck.case(('serve', tuple(starts)), kind='serve/%d' % len(got))
         finally:
             RP.GET_BLOCKS_INVENTORY_SIZE = old_batch
+    try:
+        found_block_echo_probe(ck, tier, keys)
+    except Exception:
+        import traceback
+        tb = traceback.format_exc()
+        if 'could not mine a block' not in tb:
+            ck.disagree('found-block echo probe crashed: %s' % tb[-500:], {})
+    try:
+        import check_C13
+        check_C13.scripted_reorg(ck, tier)       # a transaction valid again after a fork switch reaches the pool again
+    except Exception:
+        import traceback
+        tb = traceback.format_exc()
+        if 'could not mine a block' not in tb:
+            ck.disagree('re-announced transaction probe crashed: %s' % tb[-500:], {})
     try:
         long_connection_probe(ck, tier, keys)
     except Exception:
